@@ -42,7 +42,9 @@ StatusOf == [R |-> "running", S |-> "sleeping", D |-> "disk-sleep", T |-> "stopp
              t |-> "tracing-stop", Z |-> "zombie", X |-> "dead", x |-> "dead",
              K |-> "wake-kill", W |-> "waking", I |-> "idle", P |-> "parked"]
 
-TtyPath(n) == IF n = 1025 THEN "/dev/tty1" ELSE IF n = 34816 THEN "/dev/pts/0" ELSE "None"
+\* device numbers: major 4 = tty / ttyS, major 136 = pts (minor = index)
+TtyPath(n) == CASE n = 1025 -> "/dev/tty1" [] n = 1088 -> "/dev/ttyS0" [] n = 34816 -> "/dev/pts/0"
+                [] n = 34826 -> "/dev/pts/10" [] n = 34939 -> "/dev/pts/123" [] OTHER -> "None"
 
 \* thread i (1 = main thread) : name and tick counters
 TComm(c, i) == IF i = 1 THEN Trunc(c) ELSE <<116, 41, 32, 40>> \o <<48 + i>>   \* "t) (<i>"
